@@ -113,6 +113,7 @@ type Exec struct {
 	closures map[types.Object]*ast.FuncLit
 	inlineDepth int
 	initGlobals bool
+	modelWrite int
 }
 
 func (x *Exec) unsupported(n ast.Node, format string, a ...any) {
